@@ -35,7 +35,7 @@ PROPS = {
     "C10": dict(runs=[dict(unit=U1, groups=["fit", "wid"])], own_groups=["fit", "wid"], undecided_sentences=[]),
     "C04": dict(runs=[dict(unit=U1, groups=["once"])], own_groups=["once"], owns_shared=True,
                 undecided_sentences=["multiplicity on the parallel path rests on the assumed contract of rayon (rule R11: each closure called exactly once)"]),
-    "C12": dict(runs=[dict(unit=U1, groups=["tl"])], own_groups=["tl"],
+    "C12": dict(runs=[dict(unit=U1, groups=["tl"]), dict(unit=U6, groups=["tlw"], mode="T")], own_groups=["tl", "tlw"],
                 undecided_sentences=["'on the thread that called dispatch, never on a pool worker' (thread identity) is not a contract over sequential code", "'after every other system has finished' in time: program order of inner.dispatch then the thread-local loop is proved, rayon's fork-join is trusted"]),
     "C06": dict(runs=[dict(unit=U2, groups=["sd"], mode="P")], own_groups=["sd", "P"], owns_shared=True,
                 undecided_sentences=["'all of it is released when the value is dropped': Rust drop glue and atomic_refcell's Drop (trusted); the contract shows no impl stores a guard anywhere but in the returned value",
@@ -71,4 +71,4 @@ TRUSTED = {
 NOPAR = ("shred-derive",)
 for _pid in ("C01", "C02", "C03", "C04", "C07", "C10", "C12", "C13", "C18", "C20"):
     _r = PROPS[_pid]["runs"]
-    PROPS[_pid]["runs_thorough"] = _r + [dict(x, features=NOPAR) for x in _r]
+    PROPS[_pid]["runs_thorough"] = _r + [dict(x, features=NOPAR) for x in _r if x["unit"] == U1]
